@@ -21,6 +21,8 @@ T = {
          "The whole-traversal theorem eraseHints(transform opt=true) = transform opt=false is not yet proved for all modules (proved: its local ingredients); the pair oracle covers the generated inputs only.", "7 C12"),
  "C13": ("Decision-logic theorems about the patch-flag analysis of the model, for all accumulator states and attributes: the flag is one of the finitely many unions of CLASS/STYLE/PROPS/FULL_PROPS/HYDRATE_EVENTS/NEED_PATCH (never negative); dynamic keys give exactly FULL_PROPS; spreads and transformOn objects set dynamic keys; the analysis is monotone (no fact cleared, no dynamic prop removed); a non-constant plain attribute other than key/ref is covered (class/style facts on elements, dynamic-prop list otherwise; on components class/style are ordinary props); PROPS/CLASS/STYLE bits follow from the facts; ref/directive exclude HYDRATE_EVENTS alone and no flag; the slot flag is 1 or 2 and a bound identifier child marks every open slot. Oracle: the statement's clauses evaluated on every vnode call of the real output.",
          "The lift of the cover theorem through the whole attribute fold (directives and v-model steps in between) is not yet a theorem; the oracle judges hints against the props the real call passes.", "7 C13"),
+ "C14": ("Theorems about the Lean model of `serde_json::from_str::<Options>` (parseOptions): `{}` = no configuration = the documented defaults; setting one field never changes another; unknown keys are ignored whatever their value; a configuration that never mentions a key leaves that option at its default (induction over the entries); an invalid pattern anywhere in the list is rejected when the configuration is read. Non-interference theorems at the level of one element: transformOn only matters for on/nativeOn attributes (never for other attributes or spreads), enableObjectSlots only when the sole child is an identifier or a call, customElementPatterns only for tags a pattern matches. Unit correspondence with the real serde derive on thousands of JSON spellings; PAIR ORACLE on the real code: each module under a random base setting of ALL options and with each option flipped must give identical output when it does not use the governed feature.",
+         "JSON text parsing is trusted (Python json vs serde_json); the non-interference theorems are local (one attribute / one child list), their lift through the whole traversal is covered by the pair oracle only; the feature classification of inputs is syntactic and conservative.", "7 C14"),
 }
 
 def main():
